@@ -118,58 +118,54 @@ def judge_history(check, ctx, case, cmds, outs, res, kinds, global_decls=False):
 
 
 def alias_feature(check, ctx, case, upto=None):
-    """True if two distinct occurrences (assertions, or named subterms) up to command index `upto` denote equivalent terms.
-    OpenSMT identifies an assertion with its hash-consed term; this feature attributes a violation to that root cause."""
+    """True if two distinct occurrences (assertions, or named subterms) that were *on the assertion stack at the same time*
+    at some moment up to command index `upto` denote equivalent terms. OpenSMT identifies an assertion with its hash-consed
+    term; this feature attributes a violation to that root cause (it also strikes after one of the two was popped: popping
+    the duplicate takes the partition and name information of the shared term with it). Occurrences whose lifetimes are
+    disjoint do not count: a formula that was popped and is asserted again afterwards is alone on the stack, and the
+    unchanged tree handles that correctly."""
     h = case['hist']
     cmds = h['commands'] if upto is None else h['commands'][:upto + 1]
-    declared = {d['name'] for d in h['decls'] if d['k'] == 'declare-fun'}
-    occ = []
+    levels = [[]]
     defs = []
+    pairs = []
+    seen = set()
+
+    def add(t):
+        for lv in levels:
+            for u in lv:
+                if (u, t) not in seen:
+                    seen.add((u, t))
+                    pairs.append((u, t))
+        levels[-1].append(t)
     for c in cmds:
         if c.get('fault'):
             continue
         if c['k'] == 'define-fun':
             defs.append((c['name'], c['text']))
+        elif c['k'] == 'push':
+            for _ in range(c['n']):
+                levels.append([])
+        elif c['k'] == 'pop':
+            if c['n'] < len(levels):
+                del levels[len(levels) - c['n']:]
         if c['k'] != 'assert':
             continue
-        occ.append(c['ref'])
+        add(c['ref'])
         for (name, ref, is_bool, top) in c.get('names', []):
             if not top:
-                occ.append(ref)
-
-    def syms(t):
-        return frozenset(x for x in t.replace('(', ' ').replace(')', ' ').split() if x in declared or (x[:1] == 'm' and x[1:].isdigit()))
-    groups = {}
-    for t in occ:
-        groups.setdefault(syms(t), []).append(t)
+                add(ref)
     prelude = prelude_from_decls(h['decls'], defs)
-    # two occurrences that are both valid, or both unsatisfiable, simplify to the same constant term
-    consts = {'true': 0, 'false': 0}
-    for t in occ:
+    # all pairs (terms over different symbol sets can still simplify to the same term, e.g. (=> (= u u) b) and b; two valid
+    # or two unsatisfiable terms both simplify to the same constant)
+    for (u, t) in pairs[:1500]:
+        if u == t:
+            return True
         try:
-            if ctx.refs.truth(prelude, ['(not (= %s true))' % t]) == 'unsat':
-                consts['true'] += 1
-            elif ctx.refs.truth(prelude, ['(not (= %s false))' % t]) == 'unsat':
-                consts['false'] += 1
+            if ctx.refs.truth(prelude, ['(not (= %s %s))' % (u, t)]) == 'unsat':
+                return True
         except RefError:
             continue
-    if consts['true'] >= 2 or consts['false'] >= 2:
-        return True
-    # all pairs (terms over different symbol sets can still simplify to the same term, e.g. (=> (= u u) b) and b)
-    budget = 1500
-    for g in [occ]:
-        for i in range(len(g)):
-            for j in range(i + 1, len(g)):
-                if g[i] == g[j]:
-                    return True
-                budget -= 1
-                if budget < 0:
-                    return False
-                try:
-                    if ctx.refs.truth(prelude, ['(not (= %s %s))' % (g[i], g[j])]) == 'unsat':
-                        return True
-                except RefError:
-                    continue
     return False
 
 
